@@ -93,6 +93,10 @@ func (p *proc) stop(kill bool) (exit string) {
 		p.cmd.Process.Kill()
 	}
 	err := p.cmd.Wait()
+	if os.Getenv("C18_TRACE") != "" {
+		b, _ := os.ReadFile(p.errPath)
+		os.Stderr.Write(b)
+	}
 	p.fromWf.Close()
 	p.cmd = nil
 	if err != nil {
@@ -118,6 +122,7 @@ func (p *proc) markErr() {
 }
 
 var (
+	reFP    = regexp.MustCompile(` fp=0x[0-9a-f]+ sp=0x[0-9a-f]+ pc=0x[0-9a-f]+`)
 	reFatal = regexp.MustCompile(`(?m)^(fatal error: .*|runtime: out of memory.*|panic: .*)$`)
 )
 
@@ -134,21 +139,36 @@ func classifyDeath(cs *Case, tail, exit string, timedOut bool) *Violation {
 	if m != nil {
 		stack = tail[m[0]:]
 	}
-	if len(stack) > 6000 {
-		stack = stack[:6000]
+	if len(stack) > 60000 {
+		stack = stack[:60000]
 	}
-	// the first goroutine block after the message is the faulting one
-	first := stack
-	if i := strings.Index(first, "\ngoroutine "); i >= 0 {
-		first = first[i+1:]
-		if j := strings.Index(first, "\n\n"); j >= 0 {
-			first = first[:j]
+	// the first goroutine block after the message is the faulting one; when the
+	// runtime died on its system stack take the first block that shows gocoin code
+	first := ""
+	for _, blk := range strings.Split(stack, "\n\n") {
+		if !strings.HasPrefix(blk, "goroutine ") {
+			if i := strings.Index(blk, "\ngoroutine "); i >= 0 {
+				blk = blk[i+1:]
+			} else {
+				continue
+			}
+		}
+		if first == "" {
+			first = blk
+		}
+		if strings.Contains(blk, gocoinPfx) {
+			first = blk
+			break
 		}
 	}
+	stack = reFP.ReplaceAllString(first, "")
 	fn, loc, h := site(first, false)
 	if cs.Kind == "lib" {
 		h = ""
 	} else {
+		if h == "Run" {
+			h = targetCmd(cs)
+		}
 		h = "/" + h
 	}
 	switch {
@@ -394,6 +414,10 @@ type tally struct {
 	libInputs int64
 	conns     int64
 	selfOK    int
+	usNet     int64
+	usNetMax  int64
+	usLib     int64
+	starts    int64
 }
 
 func famClass(f string) string {
@@ -520,11 +544,16 @@ func main() {
 		t.perFamily[cs.Kind+":"+famClass(cs.Family)]++
 		t.perCmd[cmd]++
 		if cs.Kind == "net" {
+			t.usNet += res.Micros
+			if res.Micros > t.usNetMax {
+				t.usNetMax = res.Micros
+			}
 			t.perCtx[cs.Ctx]++
 			t.conns++
 			t.msgs += int64(res.Handled)
 		} else if cs.Kind == "lib" {
 			t.libInputs += int64(res.Handled)
+			t.usLib += res.Micros
 		}
 		if res.Viol != nil {
 			k := res.Viol.Key
@@ -563,7 +592,7 @@ func main() {
 		go func(i int) {
 			defer wg.Done()
 			p := newProc(i)
-			defer p.stop(true)
+			defer func() { atomic.AddInt64(&t.starts, int64(p.starts)); p.stop(true) }()
 			for cs := range jobs {
 				if r.OverBudget() {
 					continue
@@ -588,6 +617,22 @@ func main() {
 			}
 		}(i)
 	}
+	// slow members (loops driven by wire-supplied counts hit the 60 s watchdog) first,
+	// so that they overlap with the rest of the run
+	prio := func(c *Case) int {
+		switch {
+		case c.Kind == "self":
+			return 0
+		case c.Kind == "net" && strings.HasPrefix(c.Family, "count/") && (strings.HasPrefix(c.Tmpl, "cmpctblock") || c.Tmpl == "blocktxn"):
+			return 1
+		case c.Kind == "lib" && strings.Contains(c.Family, "count-pair"):
+			return 2
+		case c.Kind == "lib":
+			return 4
+		}
+		return 3
+	}
+	sort.SliceStable(cases, func(i, j int) bool { return prio(cases[i]) < prio(cases[j]) })
 	for _, c := range cases {
 		jobs <- c
 	}
@@ -622,6 +667,9 @@ func main() {
 		n := 2
 		if strings.Contains(k, "/hang@") || strings.Contains(k, "unresponsive") {
 			n = 1
+			if t.violCases[k] >= 2 {
+				n = 0 // already reproduced by independent cases in different workers
+			}
 		}
 		cw.Add(1)
 		go func(i int, k string, n int) {
@@ -669,22 +717,26 @@ func main() {
 	}
 	cleanup()
 	r.Finish(map[string]interface{}{
-		"evaluations":             int(t.conns + t.libInputs),
-		"connections":             int(t.conns),
-		"messages_delivered":      int(t.msgs),
-		"library_inputs":          int(t.libInputs),
-		"distinct_nontrivial":     len(t.nontriv),
-		"distinct_outcomes":       len(t.outcomes),
-		"rule":                    "a case is non-trivial when the message under test passed wire framing and was dispatched by Run (or the library call returned); distinct_nontrivial counts distinct (command or function, outcome class) pairs, the outcome class being ban reason / disconnect reason / misbehaviour score / headers accepted / set of per-connection counters (replies sent) for connections and the result class for library calls",
-		"per_family":              t.perFamily,
-		"per_command":             t.perCmd,
-		"per_context":             t.perCtx,
-		"violating_cases_per_key": perKey,
+		"evaluations":              int(t.conns + t.libInputs),
+		"connections":              int(t.conns),
+		"messages_delivered":       int(t.msgs),
+		"library_inputs":           int(t.libInputs),
+		"distinct_nontrivial":      len(t.nontriv),
+		"distinct_outcomes":        len(t.outcomes),
+		"rule":                     "a case is non-trivial when the message under test passed wire framing and was dispatched by Run (or the library call returned); distinct_nontrivial counts distinct (command or function, outcome class) pairs, the outcome class being ban reason / disconnect reason / misbehaviour score / headers accepted / set of per-connection counters (replies sent) for connections and the result class for library calls",
+		"per_family":               t.perFamily,
+		"per_command":              t.perCmd,
+		"per_context":              t.perCtx,
+		"violating_cases_per_key":  perKey,
 		"worker_deaths_in_batches": t.deaths,
-		"timing_disturbed_reruns": t.disturbed,
-		"oracle_selftests_passed": t.selfOK,
-		"samples":                 samples.L,
-		"watchdog_s":              watchdog.Seconds(),
+		"timing_disturbed_reruns":  t.disturbed,
+		"oracle_selftests_passed":  t.selfOK,
+		"samples":                  samples.L,
+		"watchdog_s":               watchdog.Seconds(),
+		"worker_cpu_net_s":         float64(t.usNet) / 1e6,
+		"worker_net_case_max_ms":   float64(t.usNetMax) / 1e3,
+		"worker_cpu_lib_s":         float64(t.usLib) / 1e6,
+		"worker_starts":            int(t.starts),
 	}, []string{
 		"the node is a real chain.Chain on the mini-chain (110 blocks, PoW limit 0x207fffff) with initialised txpool, peers qdb, common.CFG defaults of InitConfig; package state is reset to start-up state before every connection, every violating case ends its worker process",
 		"OneConnection.Run() is the real loop (FetchMessage framing, dispatch switch, Tick, tear-down) reading from an in-memory net.Conn; NetTxs are consumed through the real txpool.HandleNetTx (and network.txPoolCB), NetBlocks are dropped (block acceptance lives in package main)",
